@@ -5,6 +5,7 @@
 -/
 import MinkModel.Literal
 import MinkModel.Pipeline
+import MinkProofs.C09
 namespace Mink.C16
 open Mink
 
@@ -50,8 +51,25 @@ theorem counters_fit_u8 (f : MFunc) (h : checkFunc f = .ok ()) :
   simp only [Counts.total]
   omega
 
-/-- size arithmetic is NOT protected: the expanded size of a struct can exceed 2^64 — the
-    debug build panics on the multiplication, the release build wraps (known finding) -/
+/-- **(c), struct sizes (fix 32d1f86)**: for every struct of an accepted compilation the size
+    — and every running sum on the way to it (`FieldsAligned` carries the bound per field) —
+    is below `usizeLimit`: the wrapping evaluation of an optimised build and the checked one of
+    a debug build give the same number, which is the number emitted -/
+theorem accepted_sizes_fit (entry : Entry) (fs : FsModel) (inc : List Nat) (main : Nat) (ub : Bool) (r : Compiled)
+    (h : compile entry fs inc main ub = .ok r) :
+    ∀ n ∈ r.structOrder, ∃ size al, (n, size, al) ∈ r.sizes ∧ size % 2 ^ 64 = size := by
+  intro n hn
+  obtain ⟨_, _, size, al, _, _, _, _, hlt, hmem⟩ := (C09.compile_sound entry fs inc main ub r h).2.1 n hn
+  exact ⟨size, al, hmem, wrap_eq_checked 64 size hlt⟩
+
+/-- the running size of the field loop never decreases and, once the loop has accepted, has
+    never reached the limit at any field -/
+theorem verifyFields_bounded (store : SizeStore) (fl : List Field) (size al : Nat) (seen : List Nat) (size' al' : Nat)
+    (h : verifyFields store fl size al seen = .ok (size', al')) (h0 : size < usizeLimit) :
+    size ≤ size' ∧ size' < usizeLimit :=
+  C09.fieldsAligned_lt _ _ _ _ _ _ _ (C09.verifyFields_sound _ _ _ _ _ _ _ h) h0
+
+/-- five levels of `T[65535]` over `uint64` exceed 2^64 (the mathematical size) … -/
 example :
     let a : MStruct := .mk 1 [.mk 0 (.prim .u64) 65535]
     let b : MStruct := .mk 2 [.mk 0 (.struct false a) 65535]
@@ -59,5 +77,18 @@ example :
     let d : MStruct := .mk 4 [.mk 0 (.struct false c) 65535]
     let e : MStruct := .mk 5 [.mk 0 (.struct false d) 65535]
     e.size ≥ 2 ^ 64 := by decide
+
+/-- … and the struct verifier refuses the fourth level already (8·65535^4 ≥ 2^64), while four
+    levels over `uint8` (65535^4 < 2^64) are accepted and two of them side by side are not -/
+example :
+    let sy : Symbols := { structs := [(⟨1, [⟨0, .prim .u64, 65535⟩]⟩, 0), (⟨2, [⟨0, .custom 1, 65535⟩]⟩, 0),
+                                      (⟨3, [⟨0, .custom 2, 65535⟩]⟩, 0), (⟨4, [⟨0, .custom 3, 65535⟩]⟩, 0)] }
+    C09.isOk (structVerifier sy [1, 2, 3] []) = true ∧ C09.isOk (structVerifier sy [1, 2, 3, 4] []) = false := by decide
+
+example :
+    let sy : Symbols := { structs := [(⟨1, [⟨0, .prim .u8, 65535⟩]⟩, 0), (⟨2, [⟨0, .custom 1, 65535⟩]⟩, 0),
+                                      (⟨3, [⟨0, .custom 2, 65535⟩]⟩, 0), (⟨4, [⟨0, .custom 3, 65535⟩]⟩, 0),
+                                      (⟨5, [⟨0, .custom 4, 1⟩, ⟨1, .custom 4, 1⟩]⟩, 0)] }
+    C09.isOk (structVerifier sy [1, 2, 3, 4] []) = true ∧ C09.isOk (structVerifier sy [1, 2, 3, 4, 5] []) = false := by decide
 
 end Mink.C16
